@@ -575,6 +575,43 @@ func init() {
 						}
 					}
 				}})
+			// names that leave the template directory (../shared/card), present and absent, in @component and @use, plain and
+			// behind a detour: whatever loading makes of them, an error it returns carries a line
+			outNames := []string{"../shared/card", "../nowhere/card", "sub/../../shared/card", "../../c08out/shared/card", "..", "../", "../shared", "./../shared/card", "~../../shared/card"}
+			secs = append(secs, core.Section{Name: "names-that-leave-the-template-directory", Exhaustive: true, N: len(outNames) * 3,
+				Run: func(c *core.Ctx, i int) {
+					name := outNames[i/3]
+					page := []string{"a\n@component(\"" + name + "\", {t: 1})", "b\n\n@component(\"" + name + "\")@slot s@end@end", "@insert(\"b\", 2)\n@use(\"" + name + "\")"}[i%3]
+					files := map[string]string{"tpl/p.tw": page, "tpl/q.tw": "fine", "shared/card.tw": "<card {{ t }}@slot>@reserve(\"b\")", "tpl/sub/x.tw": "x"}
+					os.RemoveAll("c08out")
+					if err := writeFiles("c08out", files); err != nil {
+						c.Inconclusive(err.Error())
+						return
+					}
+					defer os.RemoveAll("c08out")
+					textwire.VerifResetConfig()
+					var tpl *textwire.Template
+					var err error
+					c.Eval(1)
+					c.Input(map[string]any{"files": describeFiles(files), "template_dir": "c08out/tpl"})
+					if c.Guard(func() { tpl, err = textwire.NewTemplate(&config.Config{TemplateDir: "c08out/tpl", TemplateExt: ".tw"}) }) {
+						return
+					}
+					c.Nontrivial(fmt.Sprint("out-name", i, name))
+					switch {
+					case err == nil && tpl == nil:
+						c.Violation("load-contract", "NewTemplate returned neither a template nor an error", map[string]any{"files": describeFiles(files)})
+					case err != nil:
+						c.Count("outside_names_rejected", 1)
+						if line, _, ok := ErrLinePath(err); !ok || line < 1 {
+							c.Violation("load-error-without-line", "the load error carries no line number: "+err.Error(), map[string]any{"files": describeFiles(files)})
+						}
+					default:
+						c.Count("outside_names_loaded", 1)
+						got, _ := renderPage(c, tpl, "p", nil)
+						_ = got
+					}
+				}})
 			// several goroutines lex and parse at once, every input with words never seen before in the process
 			secs = append(secs, core.Section{Name: "concurrent-parsing", N: 16,
 				Run: func(c *core.Ctx, i int) {
